@@ -2,6 +2,7 @@
 # usage: tools/try_seed.sh <ID> [check ids...]   — confirm a seeded change from /tmp/seed/<ID>/SEED and run our checks against it
 # 1. existing suite passes with the change  2. demo fails with / passes without  3. our check(s) on /repo with the patch applied
 set -u
+REPO=${REPO:-/repo}; VERIF=${VERIF:-/verif}   # a scratch copy of both can be used while /verif is busy
 ID=$1; shift
 CHECKS=${*:-$ID}
 W=${SEED_BASE:-/tmp/seed}/$ID
@@ -14,7 +15,7 @@ if ! git -C $W diff -- src | diff -q - $S/patch.diff >/dev/null; then
   echo "WORKTREE DIFFERS FROM patch.diff: resetting the worktree's src to HEAD + patch.diff"
   git -C $W checkout -- src && git -C $W apply $S/patch.diff || { echo "cannot re-apply"; exit 2; }
 fi
-git -C /repo apply --check $S/patch.diff || { echo "PATCH DOES NOT APPLY TO /repo"; exit 2; }
+git -C $REPO apply --check $S/patch.diff || { echo "PATCH DOES NOT APPLY TO $REPO"; exit 2; }
 echo "== suite with change"
 SUITE=$(cargo test --offline 2>&1 | grep -E "^test result" | tr '\n' ' ')
 echo "$SUITE"
@@ -28,13 +29,13 @@ echo "== demo without change"
 echo "exit $WITHOUT"
 git -C $W apply $S/patch.diff
 echo "== our checks with the patch applied to /repo"
-git -C /repo apply $S/patch.diff
+git -C $REPO apply $S/patch.diff
 RES=""
 for c in $CHECKS; do
-  OUT=$(cd /verif && ./check $c 2>&1 | cut -c1-600 | head -6)
+  OUT=$(cd $VERIF && ./check $c 2>&1 | cut -c1-600 | head -6)
   echo "$OUT"
   if echo "$OUT" | grep -q "^VIOLATION property=$c"; then RES="$RES $c:caught"; else RES="$RES $c:missed"; fi
 done
-git -C /repo checkout -- .
-rm -rf /verif/replays
+git -C $REPO checkout -- .
+rm -rf $VERIF/replays
 echo "== SUMMARY $ID suite=[$SUITE] demo_with=$WITH demo_without=$WITHOUT checks=[$RES]"
